@@ -95,6 +95,27 @@ Fixpoint sumf (n : nat) (f : nat -> Q) : Q :=
 Definition adjacency (n : nat) (edges : list (nat * nat)) : mat :=
   tab n (fun i j => if existsb (fun e => Nat.eqb (fst e) i && Nat.eqb (snd e) j) edges then 1 else 0).
 
+(* ---------------- acyclic support: topological-order witness and exact nilpotency ---------------- *)
+Fixpoint index_of (x : nat) (l : list nat) : nat :=
+  match l with [] => O | y :: r => if Nat.eqb x y then O else S (index_of x r) end.
+(* rank of node i = its position in the supplied order (= length of the order if i does not occur) *)
+Definition rank_of (order : list nat) (i : nat) : nat := index_of i order.
+(* the order lists every index 0..n-1 and has n entries *)
+Definition order_ok (n : nat) (order : list nat) : bool :=
+  Nat.eqb (length order) n && forallb (fun i => existsb (Nat.eqb i) order) (seq 0 n).
+(* every non-zero A[i][j] (the code stores the edge j -> i there) has j strictly before i in the order *)
+Definition dag_witness_ok (order : list nat) (n : nat) (A : mat) : bool :=
+  forallb (fun i => forallb (fun j => Qeq_bool (get A i j) 0 || Nat.ltb (rank_of order j) (rank_of order i)) (seq 0 n)) (seq 0 n).
+(* matrix product, identity, power, zero test on n x n lists *)
+Definition mmul (n : nat) (A B : mat) : mat := tab n (fun i j => sumf n (fun k => get A i k * get B k j)).
+Definition mident (n : nat) : mat := tab n (fun i j => if Nat.eqb i j then 1 else 0).
+Fixpoint mpow (n : nat) (A : mat) (m : nat) : mat :=
+  match m with O => mident n | S k => mmul n A (mpow n A k) end.
+Definition mzero (n : nat) (M : mat) : bool :=
+  forallb (fun i => forallb (fun j => Qeq_bool (get M i j) 0) (seq 0 n)) (seq 0 n).
+(* A^n = 0, exactly *)
+Definition nilpotent_ok (n : nat) (A : mat) : bool := mzero n (mpow n A n).
+
 (* ============ executable variants with reduced fractions, and the correspondence checks ============ *)
 Fixpoint dot_red (a b : vec) : Q :=
   match a, b with x :: a', y :: b' => Qred (x * y + dot_red a' b') | _, _ => 0 end.
@@ -140,6 +161,17 @@ Definition series_stepwise_ok (tol : Q) (A : mat) (eps : Q) (X noise : list vec)
   | _, _ => false
   end.
 
+Fixpoint sumf_red (n : nat) (f : nat -> Q) : Q :=
+  match n with O => 0 | S k => Qred (sumf_red k f + f k) end.
+Definition mmul_red (n : nat) (A B : mat) : mat := tab n (fun i j => sumf_red n (fun k => get A i k * get B k j)).
+Fixpoint mpow_red (n : nat) (A : mat) (m : nat) : mat :=
+  match m with O => mident n | S k => mmul_red n A (mpow_red n A k) end.
+Definition nilpotent_red_ok (n : nat) (A : mat) : bool := mzero n (mpow_red n A n).
+(* what is evaluated on a returned matrix whose graph the harness found acyclic: the supplied order is a topological
+   order of the GRAPH USED (adj[u][v] <> 0 -> u before v), the RETURNED A goes strictly down that order, and A^n = 0 *)
+Definition acyclic_ok (n : nat) (order : list nat) (adj A : mat) : bool :=
+  order_ok n order && dag_witness_ok order n (transpose n adj) && dag_witness_ok order n A && nilpotent_red_ok n A.
+
 Record lin_case := {
   lc_n : nat; lc_T : nat;
   lc_adj : mat;           (* adjacency of the graph used *)
@@ -149,7 +181,9 @@ Record lin_case := {
   lc_noise : list vec;    (* replayed standard normals, T rows *)
   lc_A : mat;             (* returned matrix *)
   lc_X : list vec;        (* returned series *)
-  lc_K : nat              (* number of leading rows compared with the free-running model *)
+  lc_K : nat;             (* number of leading rows compared with the free-running model *)
+  lc_acyclic : bool;      (* the harness (networkx) found the graph used acyclic ... *)
+  lc_order : list nat     (* ... and this topological order of its node indices (sources first) *)
 }.
 Definition check_lin_case (tol : Q) (c : lin_case) : bool :=
   let n := lc_n c in
@@ -157,7 +191,8 @@ Definition check_lin_case (tol : Q) (c : lin_case) : bool :=
   && support_ok n (lc_adj c) (lc_A c)
   && mclose tol (Qabs' (scale_factor (lc_rho c) (lc_m c))) (build_A n (lc_adj c) (lc_R c) (lc_rho c) (lc_m c)) (lc_A c)
   && mclose tol (lc_eps c) (lin_series_red (lc_A c) (lc_eps c) (firstn (lc_K c) (lc_noise c))) (firstn (lc_K c) (lc_X c))
-  && series_stepwise_ok tol (lc_A c) (lc_eps c) (lc_X c) (lc_noise c).
+  && series_stepwise_ok tol (lc_A c) (lc_eps c) (lc_X c) (lc_noise c)
+  && (if lc_acyclic c then acyclic_ok n (lc_order c) (lc_adj c) (lc_A c) else true).
 
 Definition zmatQ (X : list (list Z)) : list vec := map (map inject_Z) X.
 Definition rates_red (n : nat) (A : mat) (base c : Q) (X : list vec) : list vec :=
